@@ -834,6 +834,39 @@ theorem listClear_writes {l : Addr} (hq : Q l)
 theorem newLeaf_writes (s : Scalar) : Writes (fun _ a => Q a) h (newLeaf h s).1 :=
   .alloc (.leaf s) (.refl _)
 
+theorem applyOp_writes {op : Op} (hq : Q op.target) (he : applyOp h op = some h') :
+    Writes (fun _ a => Q a) h h' := by
+  cases op with
+  | addValue c name v => exact addValue_writes hq he
+  | addLeaf c name s => exact (newLeaf_writes s).trans (addValue_writes hq he)
+  | addContainer c name =>
+    simp only [applyOp, Option.map_eq_some_iff] at he
+    obtain ⟨⟨h1, b⟩, he, rfl⟩ := he
+    exact addContainer_writes hq he
+  | addList c name =>
+    simp only [applyOp, Option.map_eq_some_iff] at he
+    obtain ⟨⟨h1, b⟩, he, rfl⟩ := he
+    exact addList_writes hq he
+  | remove c name => exact remove_writes hq he
+  | listSet l idx v => exact listSet_writes hq he
+  | listSetLeaf l idx s => exact (newLeaf_writes s).trans (listSet_writes hq he)
+  | listAppend l v => exact listAppend_writes hq he
+  | listAppendLeaf l s => exact (newLeaf_writes s).trans (listAppend_writes hq he)
+  | listClear l => exact listClear_writes hq he
+
+theorem applyOps_writes : ∀ {ops : List Op} {h h' : Heap}, (∀ op ∈ ops, Q op.target) →
+    applyOps h ops = some h' → Writes (fun _ a => Q a) h h'
+  | [], h, h', _, he => by
+    simp only [applyOps, Option.some.injEq] at he; subst he; exact .refl _
+  | op :: ops, h, h', hq, he => by
+    simp only [applyOps] at he
+    cases h1 : applyOp h op with
+    | none => simp [h1] at he
+    | some g =>
+      simp only [h1] at he
+      exact (applyOp_writes (hq op (List.mem_cons_self ..)) h1).trans
+        (applyOps_writes (fun o ho => hq o (List.mem_cons_of_mem _ ho)) he)
+
 end mutators
 
 /-! ### decidable sufficient checks for `Closed` / `RankedBy` (for concrete heaps) -/
@@ -1617,5 +1650,77 @@ theorem abs_defined {h : Heap} (hc : h.Closed) (ha : h.Acyclic) {a : Addr} (hlt 
     (Nat.le_of_lt_succ (by have := crank_lt_size (h := h) rank hlt; rw [hd] at this; exact this)) hlt
   unfold abs
   rw [hd]; exact this
+
+/-! ### OverlayDocument.Merged: the fold of mergeContainers over the layers -/
+
+theorem mergeAllF_share {h0 : Heap} {S : Addr → Prop} (ctx : ShareCtx h0 S) (o : ListStrategy) (f : Nat) :
+    ∀ (ls : List Addr) (h h' : Heap) (acc r : Addr), MInv h0 S h → Good h0 S h acc → h0.size ≤ acc →
+      (∀ l ∈ ls, Good h0 S h l) → mergeAllF o f h acc ls = some (h', r) →
+      h ≤ h' ∧ MInv h0 S h' ∧ Good h0 S h' r ∧ h0.size ≤ r
+  | [], h, h', acc, r, hi, ha, hacc, _, hm => by
+    simp only [mergeAllF, Option.some.injEq, Prod.mk.injEq] at hm
+    obtain ⟨rfl, rfl⟩ := hm
+    exact ⟨le_refl _, hi, ha, hacc⟩
+  | l :: ls, h, h', acc, r, hi, ha, _, hl, hm => by
+    simp only [mergeAllF] at hm
+    cases hc : mergeContainersF o f h acc l with
+    | none => simp [hc] at hm
+    | some q =>
+      obtain ⟨h1, a1⟩ := q
+      simp only [hc] at hm
+      obtain ⟨ka, kb, g1, g2, hm'⟩ := mergeContainersF_inv hc
+      obtain ⟨l1, i1, ga1⟩ := mergeNodeF_share ctx o f h acc l h1 a1 hi ha (hl l (List.mem_cons_self ..)) hm'
+      have hfresh := (mergeNodeF_spine_fresh hm' g1 g2 (Or.inl ⟨rfl, rfl⟩)).1
+      obtain ⟨l2, i2, gr, hr⟩ := mergeAllF_share ctx o f ls h1 h' a1 r i1 ga1
+        (Nat.le_trans (size_le_of_le hi.1) hfresh)
+        (fun x hx => (hl x (List.mem_cons_of_mem _ hx)).mono l1) hm
+      exact ⟨le_trans l1 l2, i2, gr, hr⟩
+
+/-- the sharing context of a list of layer roots on a closed heap -/
+theorem shareCtx_of_layers {h : Heap} (hc : h.Closed) (hnil : h.NilOk) {layers : List Addr}
+    (hl : ∀ l ∈ layers, l < h.size) :
+    ShareCtx h (fun b => (∃ l ∈ layers, Reach h l b) ∨ b = nilAddr) := by
+  have hin : ∀ {r b : Addr}, r < h.size → Reach h r b → b < h.size := fun hr hrb =>
+    Reach.closed_set (fun a => a < h.size) (fun a c _ hg k hk => hc a c hg k hk) hrb hr
+  refine ⟨?_, ?_, Or.inr rfl⟩
+  · intro b hb
+    rcases hb with ⟨l, hl', hb⟩ | rfl
+    · exact hin (hl l hl') hb
+    · exact get?_lt hnil
+  · intro a c ha hg k hk
+    rcases ha with ⟨l, hl', ha⟩ | rfl
+    · exact Or.inl ⟨l, hl', ha.trans (Reach.child hg hk)⟩
+    · rw [hnil] at hg
+      cases Option.some.inj hg
+      simp [Cell.kids] at hk
+
+theorem mergeAllF_abs (o : ListStrategy) (f : Nat) :
+    ∀ (ls : List Addr) (h : Heap) (acc : Addr) (accN : AMap Node) (lsN : List (AMap Node)),
+      h.NilOk → absH f h acc = some (.cont accN) →
+      optMapM (absH f h) ls = some (lsN.map Node.cont) →
+      ∃ h' r, mergeAllF o f h acc ls = some (h', r) ∧
+        absH f h' r = some (.cont (lsN.foldl (mergeKvs o) accN))
+  | [], h, acc, accN, lsN, _, ha, hl => by
+    simp only [optMapM, Option.some.injEq] at hl
+    have : lsN = [] := by cases lsN with | nil => rfl | cons _ _ => simp at hl
+    subst this
+    exact ⟨h, acc, rfl, ha⟩
+  | l :: ls, h, acc, accN, lsN, hnil, ha, hl => by
+    obtain ⟨n, ns, hn, hns, e⟩ := optMapM_cons_some.mp hl
+    cases lsN with
+    | nil => simp at e
+    | cons b lsN' =>
+      simp only [List.map_cons, List.cons.injEq] at e
+      obtain ⟨rfl, rfl⟩ := e
+      obtain ⟨ka, g1⟩ := get?_cont_of_absH ha
+      obtain ⟨kb, g2⟩ := get?_cont_of_absH hn
+      obtain ⟨h1, a1, hm, hr⟩ := mergeNodeF_abs o f h acc l _ _ hnil ha hn
+      have l1 := mergeNodeF_le o f h acc l h1 a1 hm
+      rw [mergeNode_cont_cont] at hr
+      obtain ⟨h', r, hrest, hres⟩ := mergeAllF_abs o f ls h1 a1 (mergeKvs o accN b) lsN'
+        (nilOk_mono hnil l1) hr (optMapM_mono l1 hns)
+      refine ⟨h', r, ?_, hres⟩
+      simp only [mergeAllF, mergeContainersF_eq g1 g2, hm]
+      exact hrest
 
 end Ytk.Heap
